@@ -1,5 +1,7 @@
 // C02: composition law. Cases: compose::<false,false> and apply_func on generated trees, K in {2,4}.
-use crate::common::*;
+#[path = "../common.rs"]
+mod common;
+use common::*;
 use affinitree::pwl::afftree::AffTree;
 use ndarray::Array1;
 use std::panic::AssertUnwindSafe;
@@ -111,7 +113,10 @@ fn one_case<const K: usize>(r: &mut Rng, id: usize, out: &mut String) {
     }
 }
 
-pub fn run(args: &Args) {
+fn main() {
+    silence_panics();
+    let argv: Vec<String> = std::env::args().collect();
+    let args = &parse_args(&argv[1..]);
     let mut r = Rng::new(args.seed ^ 0xC02);
     let mut out = String::new();
     for id in 0..args.n {
